@@ -83,6 +83,13 @@ class Shadow:
             return Rat.const(self.atoms, x)
         raise Unsupported(f"value of kind {type(x).__name__} used as a number")
 
+    def _write_through(self, cell: "Cell", new: Rat) -> None:
+        """An in-place update of a view changes the tensor(s) it is a view of: their value is no longer the known term."""
+        b = cell.base
+        while b is not None:
+            b.v = Rat.app(self.atoms, "written-through-a-view", (b.v, new))
+            b = b.base
+
     def sym(self, name: str) -> Rat:
         return Rat.sym(self.atoms, name)
 
@@ -514,6 +521,7 @@ class Shadow:
                     res = table[base]()
                     if m.endswith("_"):
                         recv.v = res
+                        self._write_through(recv, res)
                         return recv
                     return Cell(res)
                 if m in ("any", "item", "numel", "dim"):
@@ -523,8 +531,12 @@ class Shadow:
                 res = Rat.app(self.atoms, "Tensor." + base, tuple(vals), key=",".join(f"{k.arg}={ast.unparse(k.value)}" for k in e.keywords if k.arg))
                 if m.endswith("_"):
                     recv.v = res
+                    self._write_through(recv, res)
                     return recv
-                return Cell(res)
+                from .tables import VIEW_METHODS
+
+                # a view method's result shares storage with the receiver: an in-place update of it writes through
+                return Cell(res, base=recv) if m in VIEW_METHODS else Cell(res)
             if isinstance(recv, Obj) or recv is None:
                 pass
         # ---- repo callees: inline when listed
